@@ -129,6 +129,19 @@ func (x *Exec) intrinsic(fn *ssa.Function, args []Val) (Val, bool) {
 		return Bool{C: false}, true
 	case "verifDeepEqual":
 		return x.deepEq(args[0].(Iface), args[1].(Iface)), true
+	case "verifAbstractFloat":
+		x.abstract = append(x.abstract, "decimal-literal-value")
+		return x.symFloat("lit"), true
+	case "verifMarshalOf":
+		s := args[0].(Str)
+		if s.Op == nil || s.Op.Kind != "json.Marshal" {
+			return Bool{C: false}, true
+		}
+		a, ok := s.Op.Arg.(Iface)
+		if !ok {
+			return Bool{C: false}, true
+		}
+		return x.deepEq(a, args[1].(Iface)), true
 	case "verifNative":
 		return Bool{C: false}, true
 	case "verifCatch":
